@@ -34,7 +34,14 @@ Edge == {Contexts[c][1] \o Concat(s) \o Contexts[c][2] :
            c \in DOMAIN Contexts, s \in UNION {[1 .. k -> 1 .. Len(Tokens)] : k \in 0 .. NEdge}}
 Random == IF NRand = 0 THEN {} ELSE RandomSubset(NRand, [1 .. RandLen -> 1 .. Len(Tokens)])
 
-ASSUME JsonSerialize(IOEnv.OUT_FILE, [tokens |-> Tokens,
+\* deeply nested input: an opening text n times, a word, the closing text n times
+RECURSIVE Rep(_, _)
+Rep(s, n) == IF n = 0 THEN "" ELSE LET h == Rep(s, n \div 2) IN IF n % 2 = 0 THEN h \o h ELSE h \o h \o s
+Nests == << <<"(", ")">>, <<"NOT ", "">>, <<"title:(", ")">>, <<"ab AND (", ")">>, <<"(ab OR ", ")">>, <<"-", "">>,
+            <<"+(", ")">>, <<"<dquote>", "<dquote>">>, <<"[", " TO b]">>, <<"ab^2 (", ")^2">>, <<"ab ANDNOT (", ")">>, <<"ab ANDMAYBE (", ")">>, <<"ab REQUIRE title:(", ")">> >>
+Deep == {Rep(Nests[i][1], n) \o "ab" \o Rep(Nests[i][2], n) : i \in DOMAIN Nests, n \in {40, 300, 1200}}
+
+ASSUME JsonSerialize(IOEnv.OUT_FILE, [tokens |-> Tokens, deep |-> SetToSeq(Deep),
                                       exhaustive |-> SetToSeq({Concat(s) : s \in Exhaustive} \cup Edge),
                                       random |-> SetToSeq({Concat(s) : s \in Random})])
 =============================================================================
